@@ -25,7 +25,7 @@ META = {
     ),
     "trusted_base": ["rustc nightly front end and constant evaluator", "core::slice::select_nth_unstable post-condition",
                      "spec/pearson.json (independent transcription), spec/topval.json (pinned transcription + laws)"],
-    "assumptions": ["x86_64 target; code behind the `unstable` feature and non-x86 backends is not compiled here"],
+    "assumptions": ["analysed targets: x86_64, plus i686 / wasm32 (simd128 aggregation) / riscv64 (table-less length search) in the thorough tier; code behind the `unstable` feature is not analysed"],
     "not_decided": ["numeric equality of the assembled hash with the reference on every input", "float rounding at counts >= 2^24",
                     "correctness of core::slice::select_nth_unstable"],
 }
